@@ -14,10 +14,15 @@ def run(tier):
     if not m.violated:
         raise vlib.ToolError("Process.tla self-test: the unbounded drain loop should violate Stops")
     c.notes.append("Process.tla self-test: DrainBounded=FALSE violates Stops (lasso drain/Arrive with the flag cleared)")
+    m = vlib.run_tlc("MC_Process", "MC_Process_pinned_reporter.cfg", "C19/mc_selftest2", workers=4, timeout=300, collect_prints=False)
+    if not m.violated:
+        raise vlib.ToolError("Process.tla self-test: a reporter thread that dies on a long pass should violate CleanExit")
+    c.notes.append("Process.tla self-test: ReporterFragile=TRUE violates CleanExit (main's join of the dead reporter panics: exit status 101)")
     pc.run_scenarios(c, pc.c19_scenarios(tier, c.seed), "signals")
     c.rule = ("code->spec: the real server binary signalled (INT, TERM) at seeded delays while idle, under closed-loop load and under an open-loop flood from "
               "3 senders, num_workers {1,4} (thorough {1,4,16}), client_stats off/on; exit status 0 within 5 s, no panic output, hook logs (handler thread, "
-              "workers, main join order) validated against Process.tla, every reply received up to the exit verified by the interpretation")
+              "workers, statistics reporter, main join order) validated against Process.tla; schedules in which a reporter pass outlasts its one-second "
+              "cadence or a worker is slow to leave its start-up lock are produced by delay injection at hook events, every reply received up to the exit verified by the interpretation")
     c.assumptions = ["TLC 1.8", "'a few seconds' is taken as 5 s (healthy runs exit in < 1.2 s; the historical defect never exited under flood)"]
     return c.finish()
 
